@@ -861,6 +861,33 @@ def _do(acc, case, cls, outcome=None):
 # ===========================================================================
 # shard workers
 # ===========================================================================
+def _des_table_recorder():
+    """measurement only: which entries of passlib's 4-bit-indexed permutation tables get read.
+    Depends on private names of passlib.crypto.des; when they are gone the measurement is skipped."""
+    des = _pdes()
+    try:
+        if des.PCXROT is None:
+            des._load_tables()
+        tabs = {id(des.PCXROT[0][0]): "PC1ROT", id(des.PCXROT[0][1]): "PC2ROTA", id(des.PCXROT[1][0]): "PC2ROTB",
+                id(des.IE3264): "IE3264", id(des.CF6464): "CF6464"}
+        orig = des._permute
+    except Exception:  # noqa: BLE001
+        return None
+    touched = set()
+
+    def recording_permute(c, p):
+        name = tabs.get(id(p))
+        if name:
+            x = c
+            for i in range(len(p)):
+                touched.add((name, i, x & 0xF))
+                x >>= 4
+        return orig(c, p)
+
+    des._permute = recording_permute
+    return des, orig, touched
+
+
 def work(task):
     acc = Acc()
     part = task["part"]
@@ -868,7 +895,16 @@ def work(task):
     fn = WORKERS.get(part)
     if fn is None:
         raise HarnessError(f"unknown part {part}")
-    fn(acc, task, seed)
+    rec = _des_table_recorder() if part.startswith("des.") else None
+    try:
+        fn(acc, task, seed)
+    finally:
+        if rec:
+            rec[0]._permute = rec[1]
+    if rec:
+        for name, i, v in rec[2]:
+            acc.hist.setdefault(f"des_impl_table_entries_read:{name}", {})
+            acc.hist[f"des_impl_table_entries_read:{name}"][f"{i}:{v}"] = 1
     comp = part.split(".")[0]
     acc.counters[f"part:{comp}:evaluations"] += acc.evaluations
     acc.counters[f"part:{comp}:violations"] += len(acc.violations)
@@ -954,6 +990,38 @@ def w_des_rounds(acc, task, seed):
                     ("des", "rounds", pname, sname, rounds))
                 acc.axis("des_rounds", rounds)
     acc.axis("des_part", "rounds")
+
+
+def dense_int(i, nbytes, tag):
+    """seed-independent dense material (coverage of the key-permutation tables is asserted on it)"""
+    return int.from_bytes(hashlib.sha256(b"c11-dense:%s:%d" % (tag, i)).digest()[:nbytes], "big")
+
+
+def w_des_keylanes(acc, task, seed):
+    """every nibble value at every nibble position of the key (background all-zero and all-one):
+    touches every entry of a 4-bit-indexed key-permutation table (PC1) by construction"""
+    blocks = (("zero", 0), ("filler", filler_int(seed, 8, b"lane-block")))
+    for pos in task["positions"]:
+        for v in range(16):
+            for bg, key in (("bg0", v << (4 * pos)), ("bg1", MASK64 ^ ((15 ^ v) << (4 * pos)))):
+                for bname, block in blocks:
+                    _do(acc, {"kind": "des_int", "part": "keylanes", "key": key, "block": block, "salt": 0, "rounds": 1},
+                        ("des", "keylanes", pos, v, bg, bname))
+            for bg, block in (("bg0", v << (4 * pos)), ("bg1", MASK64 ^ ((15 ^ v) << (4 * pos)))):
+                _do(acc, {"kind": "des_int", "part": "blocklanes", "key": 0x0123456789ABCDEF, "block": block, "salt": 0, "rounds": 1},
+                    ("des", "blocklanes", pos, v, bg))
+    acc.axis("des_part", "keylanes")
+
+
+def w_des_dense(acc, task, seed):
+    """dense keys: the later key-schedule steps (PC2 after rotations) see every reachable nibble value"""
+    for i in range(task["lo"], task["hi"]):
+        key = dense_int(i, 8, b"key")
+        for bname, block in (("zero", 0), ("dense", dense_int(i, 8, b"block"))):
+            for sname, salt in (("plain", 0), ("salted", dense_int(i, 3, b"salt"))):
+                _do(acc, {"kind": "des_int", "part": "dense", "key": key, "block": block, "salt": salt, "rounds": 1},
+                    ("des", "dense", i, bname, sname))
+    acc.axis("des_part", "dense")
 
 
 def w_des_block(acc, task, seed):
@@ -1165,6 +1233,8 @@ WORKERS = {
     "des.salt24": w_des_salt24,
     "des.rounds": w_des_rounds,
     "des.block": w_des_block,
+    "des.keylanes": w_des_keylanes,
+    "des.dense": w_des_dense,
     "des.keys": w_des_keys,
     "bcrypt": w_bcrypt,
     "md4.oneshot": w_md4_oneshot,
@@ -1233,6 +1303,10 @@ def build_tasks(ctx):
         for lo in range(0, nbits, 8):
             T.append({"part": "des.block", "klen": klen, "keybits": list(range(lo, lo + 8)), "lanes": lo == 0, "w": 0.8})
     T.append({"part": "des.keys", "w": 0.5})
+    for lo in range(0, 16, 2):
+        T.append({"part": "des.keylanes", "positions": [lo, lo + 1], "w": 0.2})
+    for lo in range(0, 128, 32):
+        T.append({"part": "des.dense", "lo": lo, "hi": lo + 32, "w": 0.2})
     # ---- bcrypt
     T += bcrypt_tasks(ctx)
     # ---- MD4
@@ -1335,6 +1409,11 @@ def run(ctx):
         acc.sample(s)
     ctx.merge(acc)
     ctx.cov["des_sbox_entries_x_rounds_covered"] = got
+    tabcov = {k.split(":", 1)[1]: len(v) for k, v in acc.hist.items() if k.startswith("des_impl_table_entries_read:")}
+    if tabcov:
+        # reachable entries (measured once with 20000 dense keys): PC1ROT 256, PC2ROTA 208, PC2ROTB 208, IE3264 128, CF6464 256
+        ctx.cov["des_impl_permutation_table_entries_read"] = tabcov
+        ctx.log(f"passlib DES permutation-table entries read: {tabcov}")
     ctx.cov["saslprep_code_points_checked"] = acc.counters.get("saslprep_code_points_checked", 0)
     ctx.cov["digests"] = [d[0] for d in dg]
     ctx.cov["explanation"] = (
